@@ -28,9 +28,9 @@ RULE = (
     "= at least one validator or a Range header present; distinct = distinct cell hashes"
 )
 REQUIRED_OBS = ["cond_cells", "range_cells", "status:304", "status:412", "status:206", "status:416", "status:200", "sendfile_cells",
-                "contract:rangewrapper-within-range", "reach:is_resource_modified", "reach:parse_range_header", "reach:Response._process_range_request"]
+                "contract:rangewrapper-within-range", "validators_on_range_requests", "range+validators:304", "range+validators:206", "reach:is_resource_modified", "reach:parse_range_header", "reach:Response._process_range_request"]
 ASSUMPTIONS = [
-    "Range is not crossed with If-None-Match / If-Modified-Since (the property lists the two families separately)",
+    "Range crossed with If-None-Match / If-Modified-Since (check_validators_on_range_requests): matching validators win over the range (RFC 9110 13.2.2, the repaired order); for an unsatisfiable range with matching validators 304 and 416 are both accepted; If-Match is not crossed with Range",
     "a satisfiable canonical range is not required to be answered 206 (a server may ignore Range); the run is inconclusive unless most of them were",
     "non-canonical Range spellings (inner whitespace, other units, '+', leading zeros) get only the safety half: status in {200,206,416} and a consistent, contained 206",
     "412 is checked for soundness only (412 => If-Match does not admit the ETag)",
